@@ -1,4 +1,5 @@
 import ESV.Cli.Lemmas
+import ESV.Cli.Accept
 /-
 C15 — The compile CLI prints what the decompile CLI (and the docs) expect.  Property statements only; the model is
 ESV/Cli/Model.lean (cli/compile.py build_ops/build_routines_json, cli/decompile.py read_ops/read_routines/
@@ -72,41 +73,41 @@ theorem isCoordLit_posFinal (rel off : Int) : isCoordLit (posFinal rel off) = tr
     rw [splitOn_none '.' (showNat n) hdot]
     simp [hd n]
 
-theorem paramShape_paramJ (p : Param) (h : ∀ v, p = .fixed v → isNumberLit v.toList = true) :
-    paramShape (paramJ p) = true := by
+theorem paramShape_paramJ (ints : Bool) (p : Param) (h : ∀ v, p = .fixed v → isNumberLit v.toList = true) :
+    paramShapeG ints (paramJ p) = true := by
   cases p with
   | int i => rfl
-  | fixed v => simp [paramJ, paramShape, look, Dict.get?, h v rfl]
-  | const n => simp [paramJ, paramShape, look, Dict.get?]
-  | constString s => simp [paramJ, paramShape, look, Dict.get?]
+  | fixed v => simp [paramJ, paramShapeG, look, Dict.get?, h v rfl]
+  | const n => simp [paramJ, paramShapeG, look, Dict.get?]
+  | constString s => simp [paramJ, paramShapeG, look, Dict.get?]
   | langString kv =>
-    simp only [paramJ, paramShape, look, Dict.get?]
+    simp only [paramJ, paramShapeG, look, Dict.get?]
     simp only [↓reduceIte, String.reduceEq]
     induction kv with
     | nil => rfl
     | cons x xs ih => simp [langShape, isStr, ih]
   | posMark n xo yo xr yr =>
-    simp [paramJ, paramShape, look, Dict.get?, sOf, coordShape, isCoordLit_posFinal]
+    simp [paramJ, paramShapeG, look, Dict.get?, sOf, coordShapeG, isCoordLit_posFinal]
 
-theorem opsShape_opsJ (ops : List Op) (h : ∀ x ∈ ops, ∀ p ∈ x.params, ∀ v, p = .fixed v → isNumberLit v.toList = true) :
-    opsShape (ops.map opJ) = true := by
+theorem opsShape_opsJ (ints : Bool) (ops : List Op) (h : ∀ x ∈ ops, ∀ p ∈ x.params, ∀ v, p = .fixed v → isNumberLit v.toList = true) :
+    opsShapeG ints (ops.map opJ) = true := by
   induction ops with
   | nil => rfl
   | cons o os ih =>
-    have hp : paramsShape (o.params.map paramJ) = true := by
+    have hp : paramsShapeG ints (o.params.map paramJ) = true := by
       have := h o (by simp)
       generalize o.params = ps at this
       induction ps with
       | nil => rfl
       | cons p ps ihp =>
-        simp only [List.map_cons, paramsShape, Bool.and_eq_true]
-        exact ⟨paramShape_paramJ p (this p (by simp)), ihp (fun q hq => this q (by simp [hq]))⟩
-    simp only [List.map_cons, opsShape, Bool.and_eq_true]
+        simp only [List.map_cons, paramsShapeG, Bool.and_eq_true]
+        exact ⟨paramShape_paramJ ints p (this p (by simp)), ihp (fun q hq => this q (by simp [hq]))⟩
+    simp only [List.map_cons, opsShapeG, Bool.and_eq_true]
     refine ⟨?_, ih (fun x hx => h x (by simp [hx]))⟩
-    simp [opJ, opShape, look, Dict.get?, hp]
+    simp [opJ, opShapeG, look, Dict.get?, hp]
 
-theorem routinesShape_routinesJ (is : List RoutineInfo) (ns : List (Option String)) (os : List (List Op))
-    (h : DocOk is ns os) (js : List J) (hj : routinesJ is ns os = .ok js) : routinesShape js = true := by
+theorem routinesShape_routinesJ (ints : Bool) (is : List RoutineInfo) (ns : List (Option String)) (os : List (List Op))
+    (h : DocOk is ns os) (js : List J) (hj : routinesJ is ns os = .ok js) : routinesShapeG ints js = true := by
   induction is generalizing ns os js with
   | nil => cases ns <;> cases os <;> simp [routinesJ] at hj <;> subst hj <;> rfl
   | cons i is ih =>
@@ -126,9 +127,9 @@ theorem routinesShape_routinesJ (is : List RoutineInfo) (ns : List (Option Strin
           | ok js' =>
             simp [hr, hrs] at hj
             subst hj
-            simp only [routinesShape, Bool.and_eq_true]
+            simp only [routinesShapeG, Bool.and_eq_true]
             refine ⟨?_, ih ns os h5 js' hrs⟩
-            have ho := opsShape_opsJ o h4
+            have ho := opsShape_opsJ ints o h4
             obtain ⟨k, l, n⟩ := i
             have ht : (k = .actor ∨ k = .object ∨ k = .performer) → targetShape (targetJ ⟨k, l, n⟩) = true := by
               intro hk
@@ -148,40 +149,115 @@ theorem routinesShape_routinesJ (is : List RoutineInfo) (ns : List (Option Strin
               | none => simp at h2
               | some x =>
                 simp [routineJ] at hr; subst hr
-                simp [routineShape, look, Dict.get?, opsJ, ho, nameJ]
+                simp [routineShapeG, look, Dict.get?, opsJ, ho, nameJ]
             | generic =>
               simp [routineJ] at hr; subst hr
-              simp [routineShape, look, Dict.get?, opsJ, ho]
+              simp [routineShapeG, look, Dict.get?, opsJ, ho]
             | actor =>
               simp [routineJ] at hr; subst hr
-              simp [routineShape, look, Dict.get?, opsJ, ho, ht]
+              simp [routineShapeG, look, Dict.get?, opsJ, ho, ht]
             | object =>
               simp [routineJ] at hr; subst hr
-              simp [routineShape, look, Dict.get?, opsJ, ho, ht]
+              simp [routineShapeG, look, Dict.get?, opsJ, ho, ht]
             | performer =>
               simp [routineJ] at hr; subst hr
-              simp [routineShape, look, Dict.get?, opsJ, ho, ht]
+              simp [routineShapeG, look, Dict.get?, opsJ, ho, ht]
 
-/-- **The JSON printed by the compile command has the documented structure** — for every routine set whose routines
-have a known type, whose coroutines have their name, whose actor/object/performer routines have a target other than
+/-- **The JSON printed by the compile command has the documented structure** (even with all position coordinates
+written as strings) — for every routine set whose routines have a known type, whose coroutines have their name, whose actor/object/performer routines have a target other than
 the bare id −1, and whose fixed-point values are decimal numbers (and documented settings). -/
 theorem cli_docshape (s : J) (c : RoutineSet) (hs : settingsShape s = true) (h : DocOk c.infos c.coros c.ops)
-    (j : J) (hj : buildJson s c = .ok j) : DocShape j = true := by
+    (j : J) (hj : buildJson s c = .ok j) : DocShape j = true ∧ DocShapeStr j = true := by
   unfold buildJson at hj
   cases hr : routinesJ c.infos c.coros c.ops with
   | error e => simp [hr] at hj
   | ok js =>
     simp [hr] at hj
     subst hj
-    simp [DocShape, look, Dict.get?, hs, routinesShape_routinesJ _ _ _ h js hr]
+    simp [DocShape, DocShapeStr, DocShapeG, look, Dict.get?, hs, routinesShape_routinesJ _ _ _ _ h js hr]
 
 /-- The clause about targets is needed: `def 0 for actor(-1) {}` is accepted by the compiler, and the compile command
 prints `"target_id": null` for it, which is neither of the documented forms. -/
 theorem cli_target_null_counterexample :
     ∃ j, buildJson (.obj []) ⟨[⟨.actor, -1, none⟩], [[]], [none]⟩ = .ok j ∧
       j = .obj [("settings", .obj []), ("routines", .arr [.obj [("type", .str "ACTOR"), ("target_id", .null), ("ops", .arr [])]])] ∧
-      routineShape (.obj [("type", .str "ACTOR"), ("target_id", .null), ("ops", .arr [])]) = false :=
+      routineShapeG true (.obj [("type", .str "ACTOR"), ("target_id", .null), ("ops", .arr [])]) = false :=
   ⟨_, rfl, rfl, by decide⟩
+
+/-! ## acceptance of documented documents -/
+
+/-- **The decompile command's reader accepts every documented routine type and argument type**: check_settings and
+read_routines raise nothing on any document with the documented structure whose position coordinates are strings — all
+five routine types, integer or string targets, all six argument types, any number of routines, ops and arguments,
+additional members anywhere.  (The decompiler proper runs after this and is not modelled; for COROUTINE routines it then
+fails, `cli_coroutine_counterexample`; integer coordinates are refused, `cli_posmark_int_counterexample`.) -/
+theorem cli_accepts_documented (doc : J) (h : DocShapeStr doc = true) : ∃ rs, readRaw doc = .ok rs :=
+  readRaw_total doc h
+
+/-- the string-coordinate structure is within the documented structure -/
+theorem docShapeStr_documented (doc : J) (h : DocShapeStr doc = true) : DocShape doc = true := by
+  have hc : ∀ x, coordShapeG false x = true → coordShapeG true x = true := by
+    intro x hx; cases x <;> simp_all [coordShapeG]
+  have hm : ∀ (m : List (String × J)) (k : String),
+      (match look m k with | some x => coordShapeG false x | none => false) = true →
+      (match look m k with | some x => coordShapeG true x | none => false) = true := by
+    intro m k h
+    cases e : look m k with
+    | none => simp [e] at h
+    | some x => simp only [e] at h ⊢; exact hc x h
+  have hp : ∀ p, paramShapeG false p = true → paramShapeG true p = true := by
+    intro p hp
+    cases p with
+    | obj kv =>
+      simp only [paramShapeG] at hp ⊢
+      split at hp
+      · exact hp
+      · rfl
+      · rfl
+      · exact hp
+      · rename_i m _ _
+        simp only [Bool.and_eq_true] at hp ⊢
+        exact ⟨⟨hp.1.1, hm m "x" hp.1.2⟩, hm m "y" hp.2⟩
+      · cases hp
+    | int i => rfl
+    | _ => simp [paramShapeG] at hp
+  have hps : ∀ l, paramsShapeG false l = true → paramsShapeG true l = true := by
+    intro l; induction l with
+    | nil => intro _; rfl
+    | cons p ps ih => intro h; simp only [paramsShapeG, Bool.and_eq_true] at h ⊢; exact ⟨hp p h.1, ih h.2⟩
+  have ho : ∀ o, opShapeG false o = true → opShapeG true o = true := by
+    intro o ho
+    cases o with
+    | obj kv =>
+      simp only [opShapeG, Bool.and_eq_true] at ho ⊢
+      refine ⟨ho.1, ?_⟩
+      have := ho.2
+      split at this <;> simp_all
+    | _ => simp [opShapeG] at ho
+  have hos : ∀ l, opsShapeG false l = true → opsShapeG true l = true := by
+    intro l; induction l with
+    | nil => intro _; rfl
+    | cons p ps ih => intro h; simp only [opsShapeG, Bool.and_eq_true] at h ⊢; exact ⟨ho p h.1, ih h.2⟩
+  have hr : ∀ r, routineShapeG false r = true → routineShapeG true r = true := by
+    intro r hr
+    cases r with
+    | obj kv =>
+      simp only [routineShapeG, Bool.and_eq_true] at hr ⊢
+      refine ⟨?_, hr.2⟩
+      have := hr.1
+      split at this <;> simp_all
+    | _ => simp [routineShapeG] at hr
+  have hrs : ∀ l, routinesShapeG false l = true → routinesShapeG true l = true := by
+    intro l; induction l with
+    | nil => intro _; rfl
+    | cons p ps ih => intro h; simp only [routinesShapeG, Bool.and_eq_true] at h ⊢; exact ⟨hr p h.1, ih h.2⟩
+  cases doc with
+  | obj kv =>
+    simp only [DocShapeStr, DocShape, DocShapeG, Bool.and_eq_true] at h ⊢
+    refine ⟨h.1, ?_⟩
+    have := h.2
+    split at this <;> simp_all
+  | _ => simp [DocShapeStr, DocShapeG] at h
 
 /-! ## reading back -/
 
@@ -529,6 +605,7 @@ def exSet : RoutineSet :=
 example : settingsShape okSettings = true := by decide +kernel
 example : positionalB exSet = true ∧ closedB exSet = true := by decide +kernel
 example : (buildJson okSettings exSet).map DocShape = .ok true := by decide +kernel
+example : (buildJson okSettings exSet).map DocShapeStr = .ok true := by decide +kernel
 example : (buildJson okSettings exSet).bind readJson = .ok (renum exSet) := by decide +kernel
 example : (renum exSet).ops =
     [[⟨1, "Jump", [.int 3]⟩,
